@@ -186,25 +186,71 @@ def gen_sites():
         names |= set(re.findall(r"(\w+)\s*:\s*&?(?:mut\s+)?Hash(?:Set|Map)<", src))
         names |= set(re.findall(r"let\s+(?:mut\s+)?(\w+)\s*:\s*Hash(?:Map|Set)<", src))
         fn = None
-        for ln, line in enumerate(src.split("\n"), 1):
+        lines_ = src.split("\n")
+        for ln, line in enumerate(lines_, 1):
             m = re.search(r"\bfn\s+(\w+)", line)
             if m: fn = m.group(1)
             for n in names:
                 if re.search(r"\bfor\b[^{]*\bin\s+&?(?:mut\s+)?" + n + r"\b(?!\.)", line) or \
                    re.search(r"\b" + n + r"\s*\.\s*(iter|into_iter|keys|values|drain|iter_mut|values_mut)\s*\(", line):
-                    hash_iter.append((f, fn or "?", n))
+                    # is the iteration collected into a vector that is sorted before use?
+                    window = " ".join(lines_[ln - 1:ln + 3])
+                    mm = re.search(r"let\s+(?:mut\s+)?(\w+)\s*=\s*" + n + r"\s*\.\s*into_iter\(\)\s*\.\s*collect", window)
+                    is_sorted = bool(mm and re.search(r"\b" + mm.group(1) + r"\s*\.\s*sort(_unstable)?\s*\(", window))
+                    # a name re-bound to the sorted vector is no longer a hash container
+                    if is_sorted or not (mm is None and re.search(r"let\s+(?:mut\s+)?" + n + r"\s*=\s*" + n + r"\s*\.\s*into_iter", " ".join(lines_[max(0, ln - 6):ln]))):
+                        hash_iter.append((f, fn or "?", n, is_sorted))
             for pat, kind in ((r"\.unwrap\(\)", "unwrap"), (r"\.expect\(", "expect"), (r"\bpanic!\(", "panic"),
                               (r"\bassert(?:_eq|_ne)?!\(", "assert"), (r"\bunreachable!\(", "unreachable")):
                 for _ in re.finditer(pat, line):
                     panics.append((f, fn or "?", kind))
     out = ["/-! GENERATED by extract/extract.py from /repo/src/*.rs (non-test code) — do not edit. -/", "",
            "namespace Generated", "",
-           "/-- every iteration over a HashMap/HashSet: (file, function, container) -/",
-           "def hashIterSites : List (String × String × String) := [",
-           ",\n".join(f'  ("{a}", "{b}", "{c}")' for a, b, c in hash_iter), "]", "",
+           "/-- every iteration over a HashMap/HashSet: (file, function, container, sorted before use) -/",
+           "def hashIterSites : List (String × String × String × Bool) := [",
+           ",\n".join(f'  ("{a}", "{b}", "{c}", {"true" if d else "false"})' for a, b, c, d in hash_iter), "]", "",
            "/-- every unwrap/expect/panic!/assert!/unreachable! : (file, function, kind), with multiplicity -/",
            "def panicSites : List (String × String × String) := [",
            ",\n".join(f'  ("{a}", "{b}", "{c}")' for a, b, c in panics), "]", "",
+           "end Generated", ""]
+    return "\n".join(out)
+
+def gen_parser():
+    """shape of the 36 packrat functions and of the four caching macros (C17)"""
+    import hashlib
+    ps = strip_comments(strip_tests(read("src/parser.rs")))
+    fns = []
+    for m in re.finditer(r"\bfn (parse_\w+)<'a>\(\s*cache: &mut Cache<'a>,\s*tokens: &'a \[Token<'a>\],\s*start: usize,?\s*\) -> \(Term<'a>, usize, bool\)", ps):
+        body, _ = match_block(ps, m.end())
+        head = re.match(r"\s*let cache_key = cache_check!\(cache, (\w+), start\);", body)
+        nt = head.group(1) if head else ""
+        plain_return = bool(re.search(r"\breturn\b", body))
+        ends = bool(re.search(r"cache_return!\(\s*cache,\s*cache_key,(?:[^;]|\n)*\)\s*$", body.strip()))
+        direct_insert = bool(re.search(r"cache\s*\.\s*(insert|remove|clear|get)\b", body))
+        fns.append((m.group(1), nt, bool(head), (not plain_return) and ends and (not direct_insert)))
+    macros = []
+    for name in ("cache_check", "cache_return", "try_return", "try_eval", "consume_token_0", "consume_token_1"):
+        i = ps.find(f"macro_rules! {name} ")
+        if i < 0: fail(f"macro {name} not found")
+        body, _ = match_block(ps, i)
+        norm = re.sub(r"\s+", "", body)
+        macros.append((name, hashlib.sha256(norm.encode()).hexdigest()[:16]))
+    nts_m = re.search(r"enum Nonterminal \{([^}]*)\}", ps)
+    nts = [x.strip() for x in nts_m.group(1).split(",") if x.strip()] if nts_m else []
+    cache_ty = re.search(r"type Cache<'a> = ([^;]*);", ps)
+    cache_ty = re.sub(r"\s+", "", cache_ty.group(1)) if cache_ty else ""
+    out = ["/-! GENERATED by extract/extract.py from /repo/src/parser.rs — do not edit. -/", "",
+           "namespace Generated", "",
+           "/-- the packrat functions: (function, nonterminal it memoises under, begins with `cache_check!`,",
+           "    leaves only through the caching macros and never touches the cache directly) -/",
+           "def parseFns : List (String × String × Bool × Bool) := [",
+           ",\n".join(f'  ("{a}", "{b}", {"true" if c else "false"}, {"true" if d else "false"})' for a, b, c, d in fns), "]", "",
+           "/-- the `Nonterminal` enum, in declaration order -/",
+           "def nonterminals : List String := [" + ", ".join(f'"{x}"' for x in nts) + "]", "",
+           "/-- fingerprints (sha256 of the whitespace-free text) of the caching macros -/",
+           "def macroFingerprints : List (String × String) := [",
+           ",\n".join(f'  ("{a}", "{b}")' for a, b in macros), "]", "",
+           f'/-- the cache type -/\ndef cacheType : String := "{cache_ty}"', "",
            "end Generated", ""]
     return "\n".join(out)
 
@@ -218,6 +264,6 @@ def write(name, text):
 
 if __name__ == "__main__":
     ch = []
-    for name, gen in (("Tokenizer.lean", gen_tokenizer), ("Terms.lean", gen_terms), ("Sites.lean", gen_sites)):
+    for name, gen in (("Tokenizer.lean", gen_tokenizer), ("Terms.lean", gen_terms), ("Sites.lean", gen_sites), ("ParserShape.lean", gen_parser)):
         if write(name, gen()): ch.append(name)
     print("extract: ok" + (" (rewrote " + ", ".join(ch) + ")" if ch else " (unchanged)"))
